@@ -424,6 +424,27 @@ def oracle(case):
             if summed[k].tolist() != exp or got[k].tolist() != exp:
                 return f"pointwise sum {summed[k].tolist()} / from_labels cm {got[k].tolist()} vs rule {exp} at t={tv!r} (pos={pos.tolist()}, neg={neg.tolist()}, {sc}/{ec})"
         return None
+    if case["clause"] == "dtype":
+        # score arrays of narrow or unsigned dtypes: thresholds are float64 (at, one ulp around and between the scores)
+        from score_analysis.scores import pointwise_cm
+        dt = np.dtype(case["dtype"])
+        p_, n_ = np.asarray(case["pos"], dtype=dt), np.asarray(case["neg"], dtype=dt)
+        vals = sorted(set(float(v) for v in list(p_) + list(n_)))
+        ts = sorted(set(sum(([v, float(np.nextafter(v, np.inf)), float(np.nextafter(v, -np.inf)), v + 0.3] for v in vals), [])))
+        s = sa.Scores(p_, n_, nb_easy_pos=ep, nb_easy_neg=en, score_class=sc, equal_class=ec)
+        got = np.asarray(s.cm(np.array(ts)).matrix)
+        labels = np.array([1] * len(p_) + [0] * len(n_))
+        scores = np.concatenate([p_, n_]) if len(p_) + len(n_) else np.zeros(0, dtype=dt)
+        pw = pointwise_cm(labels, scores, np.array(ts), score_class=sc, equal_class=ec) if len(scores) else None
+        for k, tv in enumerate(ts):
+            exp = B.cm_oracle([float(v) for v in p_], [float(v) for v in n_], ep, en, sc, ec, tv)
+            if got[k].tolist() != exp:
+                return f"cm({tv!r}) = {got[k].tolist()} but the decision rule gives {exp} (pos={p_.tolist()}, neg={n_.tolist()}, dtype={dt}, easy=({ep},{en}), {sc}/{ec})"
+            if pw is not None:
+                exp0 = B.cm_oracle([float(v) for v in p_], [float(v) for v in n_], 0, 0, sc, ec, tv)
+                if pw[:, k].sum(axis=0).tolist() != exp0:
+                    return f"pointwise sum at {tv!r} = {pw[:, k].sum(axis=0).tolist()} but the decision rule gives {exp0} (pos={p_.tolist()}, neg={n_.tolist()}, dtype={dt}, {sc}/{ec})"
+        return None
     if case["clause"] == "layout":
         # thresholds (and score arrays) of any shape and any memory layout: C / Fortran order, transposed and negative-stride views
         from score_analysis.scores import pointwise_cm
@@ -496,6 +517,15 @@ def bounded(chk):
             chk.count("layout", 1, 1 if (pos or neg) else 0)
             if r:
                 chk.violation("layout", f"layout[{sc},{ec}]", r, B.jsonable(case))
+    for pos, neg in B.order_types(3):
+        for dtn, f_ in (("float32", lambda v: v + 0.7), ("float16", lambda v: v + 0.7), ("uint8", lambda v: int(v) * 3), ("int16", lambda v: int(v) * 3 - 5)):
+            for sc, ec in B.CONFIGS:
+                case = {"clause": "dtype", "pos": [f_(v) for v in pos], "neg": [f_(v) for v in neg], "ep": 1, "en": 0, "sc": sc, "ec": ec, "t": [], "dtype": dtn}
+                r = oracle(case)
+                chk.count("dtype", 1, 1 if (pos or neg) else 0)
+                if r:
+                    chk.violation("dtype", f"dtype[{dtn},{sc},{ec}]", r, B.jsonable(case))
+    chk.bounded["bound"] += "; float32 / float16 / uint8 / int16 score arrays (<= 3 scores) with float64 thresholds at, one ulp around and between the scores"
     chk.bounded["bound"] += "; threshold arrays of shape (3,4) / (4,3) / (2,3,2) / (12,) in C order, Fortran order, transposed, permuted, strided and reversed views (order types of <= 3 scores)"
     chk.samples.append({"bounded-case": {"pos": [1.0, 2.0, 2.0], "neg": [2.0], "easy": [2, 3], "config": ["neg", "pos"], "thresholds": "19 values: each score, +-1ulp, midpoints, +-inf"}})
 
